@@ -45,12 +45,14 @@ def oracle(h, arrivals, horizon):
         j += 1
 
 
-def run_impl(h, arrivals, horizon, kinds, sends=(), crumbs=(), flow=(), lead=0):
+def run_impl(h, arrivals, horizon, kinds, sends=(), crumbs=(), flow=(), lead=0, pending_call=False):
     """Real connection with keepalive K = 2h units; returns [('P', t) | ('X', t)] in units.
     sends: times at which the CLIENT writes a command - the property counts the device's messages only.
     crumbs: times (after the last arrival) at which the device sends one more byte of a frame that is never completed - bytes
     that do not complete a message are not messages.
     flow: (time, 'pause' | 'resume') - the transport reports back-pressure; the keep-alive does not depend on it.
+    pending_call: a request/response call (never answered, very long time-out) is in flight during the whole schedule: the keep-alive
+    does not depend on what the application is waiting for.
     lead: if > 0, ANOTHER session with the same K was established `lead` units earlier in the same process and stays alive (its
     device chatters); sessions have nothing to do with each other, the measured one behaves as if it were alone."""
     from aioesphomeapi import api_pb2 as pb
@@ -83,6 +85,10 @@ def run_impl(h, arrivals, horizon, kinds, sends=(), crumbs=(), flow=(), lead=0):
                 if orig is not None:
                     orig(expected)
             conn.on_stop = on_stop
+            call = None
+            if pending_call:
+                call = asyncio.ensure_future(conn.send_messages_await_response_complex((pb.ListEntitiesRequest(),), None, None, (pb.ListEntitiesDoneResponse,), 1e7))
+                await simnet.drain(loop)
             n0 = len(tr.writes)
             schedule = sorted([(a, 0, k) for a, k in zip(arrivals, kinds)] + [(t, 1, 0) for t in sends] + [(t, 2, i) for i, t in enumerate(crumbs)]
                               + [(t, 3, 0 if w == "pause" else 1) for t, w in flow])
@@ -110,6 +116,14 @@ def run_impl(h, arrivals, horizon, kinds, sends=(), crumbs=(), flow=(), lead=0):
             if not stops:
                 priv(cli, "_connection").force_disconnect() if priv(cli, "_connection") else None
                 await simnet.drain(loop)
+            if call is not None:
+                if not call.done():
+                    call.cancel()
+                await simnet.drain(loop)
+                try:
+                    call.exception()
+                except BaseException:  # noqa: BLE001
+                    pass
             if other is not None and priv(other, "_connection"):
                 priv(other, "_connection").force_disconnect()
                 await simnet.drain(loop)
@@ -198,7 +212,10 @@ def run(rep, tier, seed):
             # another session with the same K, established a fraction of K earlier, is alive in the same process
             lead = rng.choice([h // 2 + 1, h + 7, 2 * h - 5, 3 * h + 11])
             rep.bump("neighbour-session")
-        impl = run_impl(h, arr, hz, kinds, sends, crumbs, flow, lead)
+        pending_call = ci % 6 == 4
+        if pending_call:
+            rep.bump("request-in-flight")
+        impl = run_impl(h, arr, hz, kinds, sends, crumbs, flow, lead, pending_call)
         exp = oracle(h, arr, hz)
         model = [(x[0], int(x[1:])) for x in mo.split(",") if x]
         rep.bump("mode:" + mode)
@@ -218,8 +235,8 @@ def run(rep, tier, seed):
                 sig, what = "C10/silent-peer-kept", f"silent peer not dropped: expected death at {ex_[0][1] * UNIT} s"
             else:
                 sig, what = "C10/death-time", f"death {ix} vs expected {ex_} (units of 1/1024 s)"
-            rep.violation(sig, f"K={2 * h * UNIT} s{', another session with the same K established ' + str(lead * UNIT) + ' s earlier' if lead else ''}, arrivals {[a * UNIT for a in arr][:10]}: {what}",
-                          {"kind": "impl-case", "h": h, "arrivals": arr, "horizon": hz, "kinds": kinds, "client_sends": sends, "crumbs": crumbs, "flow": flow, "lead": lead, "expected": exp, "observed": impl})
+            rep.violation(sig, f"K={2 * h * UNIT} s{', a request in flight throughout' if pending_call else ''}{', another session with the same K established ' + str(lead * UNIT) + ' s earlier' if lead else ''}, arrivals {[a * UNIT for a in arr][:10]}: {what}",
+                          {"kind": "impl-case", "h": h, "arrivals": arr, "horizon": hz, "kinds": kinds, "client_sends": sends, "crumbs": crumbs, "flow": flow, "lead": lead, "pending_call": pending_call, "expected": exp, "observed": impl})
         if model != impl:
             disagreements.append({"h": h, "arrivals": arr, "horizon": hz, "model": model[:20], "impl": impl[:20]})
     rep.coverage["disagreements"] = len(disagreements)
@@ -236,7 +253,7 @@ def replay(path):
     if d.get("kind") != "impl-case":
         print("nothing to replay:", d.get("kind"))
         return 0
-    impl = run_impl(d["h"], d["arrivals"], d["horizon"], d["kinds"], d.get("client_sends", ()), d.get("crumbs", ()), [tuple(x) for x in d.get("flow", ())], d.get("lead", 0))
+    impl = run_impl(d["h"], d["arrivals"], d["horizon"], d["kinds"], d.get("client_sends", ()), d.get("crumbs", ()), [tuple(x) for x in d.get("flow", ())], d.get("lead", 0), d.get("pending_call", False))
     exp = oracle(d["h"], d["arrivals"], d["horizon"])
     print("observed:", impl)
     print("expected:", exp)
